@@ -84,7 +84,7 @@ def export_module(
             archive = stack.enter_context(
                 zipfile.ZipFile(container, "w", zipfile.ZIP_DEFLATED)
             )
-            file = archive.open("export.reqif", "w")
+            file = stack.enter_context(archive.open("export.reqif", "w"))
         else:
             file = container
         etree.ElementTree(data).write(
